@@ -41,14 +41,16 @@ def generate() -> dict[str, str]:
         'self.received_open.hold_time': ('recvHold', 'int'),
         'self.sent_open.asn': ('sentAs', 'int'),
         'self.received_open.asn': ('recvAs', 'int'),
-        'sent_capa.get(Capability.CODE.FOUR_BYTES_ASN, None)': ('sentAsn4Value', 'int'),
-        'recv_capa.get(Capability.CODE.FOUR_BYTES_ASN, None)': ('recvAsn4Value', 'int'),
+        'self.sent_open.capabilities.get(Capability.CODE.FOUR_BYTES_ASN, None)': ('sentAsn4Value', 'int'),
+        'self.received_open.capabilities.get(Capability.CODE.FOUR_BYTES_ASN, None)': ('recvAsn4Value', 'int'),
         'isinstance(sent_asn4, ASN)': ('sentAsn4IsAsn', 'bool'),
         'isinstance(asn4_capa, ASN)': ('recvAsn4IsAsn', 'bool'),
     }
     for code, nm in caps.items():
-        nopaque[f'sent_capa.announced(Capability.CODE.{code})'] = ('s' + nm, 'bool')
-        nopaque[f'recv_capa.announced(Capability.CODE.{code})'] = ('r' + nm, 'bool')
+        nopaque[f'self.sent_open.capabilities.announced(Capability.CODE.{code})'] = ('s' + nm, 'bool')
+        nopaque[f'self.received_open.capabilities.announced(Capability.CODE.{code})'] = ('r' + nm, 'bool')
+    # the inputs are named from `self`: a local such as `sent_capa` is expanded to what it was assigned
+    # (`self.sent_open.capabilities`) before an input is recognised, so exchanging the two locals is a change
     nfields = {'holdtime': 'int', 'asn4': 'bool', 'operational': 'bool', 'local_as': 'int', 'peer_as': 'int', 'refresh': 'int', 'msg_size': 'int', 'linklocal_nexthop': 'bool'}
     t2 = pylite.translate(
         Negotiated._negotiate,
